@@ -59,6 +59,7 @@ MODES = [(False, 'RNone', 'none'), (True, 'RSync', 'sync'), ('asynchronous', 'RA
 WEIRD = ['always', 'wire', 'reg', 'module', 'input', 'output', 'begin', 'end', 'assign', 'signed', 'or',
          'and', 'not', 'xor', 'if', 'else', 'for', 'initial', 'posedge', 'integer', 'clk', 'a b', 'x[3]',
          'a.b', '9lives', 'sig-1', 'café', '$x', 'ok$name', '_under', 'A', 'L' * 1025, 'M' * 1024,
+         'rcmos', 'noshowcancelled', 'pulsestyle_onevent', 'tb', 'toplevel',
          'w/3', 'out put', '{c}', 'a,b', 'endmodule', 'case']
 
 _reported = {}
@@ -258,6 +259,7 @@ def module_cases(ctx, n):
                              impl_trace=[[tracer.trace[nm][t] for nm in names] for t in range(len(inputs))],
                              impl_mem=[sim.memvalue[mid].get(a, 0) for (mid, a) in probes],
                              outputs=[k for k, w in enumerate(dump.wires) if isinstance(w, pyrtl.Output)],
+                             topo={dump.wid[n.dests[0]] - 1: pos for pos, n in enumerate(dump.nets) if n.dests},
                              regs=[(nm, rev[nm].reset_value or 0) for nm, _ in mod.regs],
                              ncyc=len(inputs), mod=mod, d=d))
             for _, e in mod.assigns + mod.resets:
@@ -272,7 +274,7 @@ def module_cases(ctx, n):
             ctx.count('memories', len(d.mems))
             ctx.count('roms', len(d.roms))
             ctx.count('renamed_wires', len(renamed))
-            if i < (12 if ctx.tier == 'quick' else 60) and len(dump.wires) <= 60:
+            if i < (20 if ctx.tier == 'quick' else 80) and len(dump.wires) <= 60:
                 tb_jobs.append((i, d, idmap, dump, regmap, memmap, inputs))
     shard = 12 if ctx.tier == 'quick' else 40
     spec = ctx.coq_eval(spec_exprs, IMPORTS, tag='c05spec', shard=shard, jobs=12)
@@ -297,43 +299,42 @@ def judge_module(ctx, c, r, spec):
     if any(row[0] != 1 for row in rows):
         ctx.model_mismatch('continuous assignments do not settle (combinational loop / double driver in the text)', rep)
     vtrace = [row[1:] for row in rows]
-    first = None
-    for t in range(c['ncyc']):
-        for k in c['outputs'] + [k for k in range(len(c['names'])) if k not in c['outputs']]:
-            if vtrace[t][k] != c['impl_trace'][t][k] or vtrace[t][k] != spec_trace[t][k]:
-                first = (t, k)
-                break
-        if first:
-            break
-    if first is None and not (vmem == c['impl_mem'] == spec_mem):
-        first = ('final', None)
+    nw = len(c['names'])
+    diffs = [[k for k in range(nw) if not (vtrace[t][k] == c['impl_trace'][t][k] == spec_trace[t][k])]
+             for t in range(c['ncyc'])]
+    out_differs = any(k in c['outputs'] for dt in diffs for k in dt)
+    mem_differs = not (vmem == c['impl_mem'] == spec_mem)
     varying = any(len({row[k] for row in c['impl_trace']}) > 1 for k in c['outputs'])
     key = (c['i'], c['mode'], hashlib.sha1(repr(c['impl_trace']).encode()).hexdigest()[:12])
     sample = None
     if c['i'] < 2 and c['mode'] == 'sync':
         sample = {'design': c['i'], 'add_reset': c['add_reset'], 'assigns': [
-            '%s = %s' % (short(l), short(repr(e))) for l, e in c['mod'].assigns[:6]],
+            '%s = %s' % (short(l), short(repr(e))) for l, e in c['mod'].assigns if e[0] != 'dec'][:6],
+            'always': {'mode': c['mod'].mode, 'resets': [(short(l), e[1]) for l, e in c['mod'].resets[:3]]},
             'outputs_cycle0': {short(c['names'][k]): c['impl_trace'][0][k] for k in c['outputs'][:4]}}
     ctx.case(key, nontrivial=varying, sample=sample)
     ctx.count('cycles', c['ncyc'])
-    if first is not None:
-        t, k = first
-        if k is None:
-            report_once(ctx, 'verilog-vs-sim:memory', 'final memory contents differ: verilog %s simulation %s spec %s' % (
-                vmem, c['impl_mem'], spec_mem), rep)
+    if any(diffs):
+        t = next(t for t in range(c['ncyc']) if diffs[t])
+        # the culprit is the differing wire that comes first in dependency order
+        k = min(diffs[t], key=lambda k: c['topo'].get(k, -1))
+        nm = c['names'][k]
+        op = driver_op(c['block'], nm)
+        what = ('design %d add_reset=%r cycle %d wire %s (driven by op %r): Verilog semantics gives %d, '
+                'pyrtl.Simulation %d, Sem %d' % (c['i'], c['add_reset'], t, short(nm), op, vtrace[t][k],
+                                                 c['impl_trace'][t][k], spec_trace[t][k]))
+        rep2 = dict(rep, first_difference={'cycle': t, 'wire': short(nm), 'verilog': vtrace[t][k],
+                                           'simulation': c['impl_trace'][t][k], 'spec': spec_trace[t][k]})
+        if all(vtrace[tt][kk] == spec_trace[tt][kk] for tt in range(c['ncyc']) for kk in diffs[tt]):
+            # Simulation itself is off (C01's business); the emitted text agrees with the spec
+            ctx.count('notes', 'simulation-differs-from-spec')
+        elif out_differs:
+            report_once(ctx, 'verilog-vs-sim:op=%s' % op, what, rep2)
         else:
-            nm = c['names'][k]
-            op = driver_op(c['block'], nm)
-            what = ('design %d add_reset=%r cycle %d wire %s (driven by op %r): Verilog semantics gives %d, '
-                    'pyrtl.Simulation %d, Sem %d' % (c['i'], c['add_reset'], t, short(nm), op, vtrace[t][k],
-                                                     c['impl_trace'][t][k], spec_trace[t][k]))
-            rep2 = dict(rep, first_difference={'cycle': t, 'wire': short(nm), 'verilog': vtrace[t][k],
-                                               'simulation': c['impl_trace'][t][k], 'spec': spec_trace[t][k]})
-            if c['impl_trace'][t][k] != spec_trace[t][k] and vtrace[t][k] == spec_trace[t][k]:
-                # Simulation itself is off (C01's business); the emitted text agrees with the spec
-                ctx.count('notes', 'simulation-differs-from-spec')
-            else:
-                report_once(ctx, 'verilog-vs-sim:op=%s' % op, what, rep2)
+            ctx.model_mismatch('an internal wire differs under the Verilog semantics but no Output does: ' + what, rep2)
+    elif mem_differs:
+        report_once(ctx, 'verilog-vs-sim:memory', 'final memory contents differ: verilog %s simulation %s spec %s' % (
+            vmem, c['impl_mem'], spec_mem), rep)
     if c['mode'] != 'none':
         got = rst_row
         want = [v for _, v in c['regs']]
@@ -353,7 +354,7 @@ def testbench_cases(ctx, jobs):
         rng = ctx.sub_rng('tb', i)
         block = d.block
         for sname, cls in SIMS:
-            if sname == 'compiled' and i >= (6 if ctx.tier == 'quick' else 30):
+            if sname == 'compiled' and i >= (8 if ctx.tier == 'quick' else 30):
                 continue
             dflt = 0 if (sname == 'compiled' or rng.random() < 0.7) else 1
             add_reset, _, mname = MODES[rng.randrange(3)]
@@ -497,7 +498,7 @@ def collide(ctx, sig, what):
 
 def run(ctx):
     _reported.clear()
-    n = 70 if ctx.tier == 'quick' else 900
+    n = 50 if ctx.tier == "quick" else 900
     tb_jobs = module_cases(ctx, n)
     testbench_cases(ctx, tb_jobs)
     targeted(ctx)
